@@ -7,7 +7,7 @@
 From Coq Require Import List Arith Bool.
 Import ListNotations.
 From LCC Require Import Base.Util Model.Proj Model.Sched Model.Fixture Model.TaskSem Model.TaskSemEq
-     Proofs.ProtocolP Proofs.SchedP Model.Graph Proofs.GraphP Proofs.ShapeP.
+     Proofs.ProtocolP Proofs.SchedP Model.Graph Proofs.GraphP Proofs.ShapeP Proofs.AccountP.
 
 (* For each executed test a start and an end enclosing properly opened and closed steps, every log inside the step open for
    the emitting thread; a single event for a skipped or disabled test; never a step start without its end when the thread
@@ -24,6 +24,30 @@ Theorem C07_scripts_keep_the_protocol : forall o tp env sc x l,
   children_ok l (sr_children (interp o tp env sc x)).
 Proof. exact interp_good. Qed.
 Print Assumptions C07_scripts_keep_the_protocol.
+
+(* "never a start without its end ... empty setup phases elided consistently, start and end together", for the result-level
+   events ([rl] = everything but step and log events) of every task of every project, whatever its scripts do and whatever
+   was decided for it:
+   - a test task fires exactly one of test_disabled, test_skipped, or test_start followed by test_end (from its worker thread;
+     no thread it starts fires a result-level event);
+   - a session / suite setup or teardown task fires either nothing at all (no event of any kind, no thread started: the held
+     start event is dropped together with the end event) or its start event first and its end event last.
+   (Unless a BaseException escaped from user code: the task then ends with an exception result and the whole run raises.) *)
+Theorem C07_test_brackets : forall pr reg force t md setup_md o,
+  task_sem pr reg force t md setup_md = Some o -> t_kind t = KTest ->
+  kids_quiet (to_children o) /\
+  (to_res o <> TkDied ->
+     rl (to_main o) = [RTestDisabled (t_path t)] \/
+     (exists r, md = Skip r /\ rl (to_main o) = [RTestSkipped (t_path t) (shown_reason r)]) \/
+     (md = Run /\ rl (to_main o) = [RTestStart (t_path t); RTestEnd (t_path t)])).
+Proof. exact test_task_accounts. Qed.
+Print Assumptions C07_test_brackets.
+
+Theorem C07_phase_brackets : forall pr reg force t md setup_md o start end_,
+  task_sem pr reg force t md setup_md = Some o -> phase_events t = Some (start, end_) -> to_res o <> TkDied ->
+  (events_of (to_main o) = [] /\ to_children o = []) \/ (rl (to_main o) = [start; end_] /\ kids_quiet (to_children o)).
+Proof. exact task_phase_brackets. Qed.
+Print Assumptions C07_phase_brackets.
 
 (* Each suite's start before, and its end after, every event of its tests, setup, teardown and sub-suites: the events of a
    task are emitted between its take and its finish, and a task is only taken after everything it transitively depends on
